@@ -116,6 +116,7 @@ def cut(*targets):
   opaque stub for the duration of the block.  Also patches `from x import attr` aliases given as
   extra 'alias_module:alias_attr=pkg.module:attr'."""
   saved = []
+  tables = []
   try:
     for t in targets:
       if '=' in t:
@@ -132,9 +133,28 @@ def cut(*targets):
         raise AttributeError('cut target %s does not exist' % alias)
       real = getattr(obj, parts[-1])
       saved.append((obj, parts[-1], real))
-      setattr(obj, parts[-1], opaque(t0, real))
+      stub = opaque(t0, real)
+      setattr(obj, parts[-1], stub)
+      # the callee may also be referenced from module-level dispatch tables ({'1': _one_dof, ...}) built at import time: those references are cut as well
+      if len(parts) == 1:
+        for nm_, val_ in list(vars(mod).items()):
+          if isinstance(val_, dict):
+            for k_, v_ in list(val_.items()):
+              if v_ is real:
+                val_[k_] = stub
+                tables.append((val_, k_, real))
+          elif isinstance(val_, list):
+            for k_, v_ in enumerate(val_):
+              if v_ is real:
+                val_[k_] = stub
+                tables.append((val_, k_, real))
+          elif isinstance(val_, tuple) and any(v_ is real for v_ in val_):
+            saved.append((mod, nm_, val_))
+            setattr(mod, nm_, tuple(stub if v_ is real else v_ for v_ in val_))
     yield
   finally:
+    for tab, k_, real in reversed(tables):
+      tab[k_] = real
     for obj, a, real in reversed(saved):
       setattr(obj, a, real)
 
